@@ -465,8 +465,20 @@ commentLineLoop:
 // SkipComment skips everything from a % to the end of the line (both inclusive).
 func (s *scanner) SkipComment() {
 	err := s.SkipRequiredByte('%')
-	if err == nil {
-		s.SkipToEOL()
+	if err != nil {
+		return
+	}
+	// A comment ends at the next newline or form feed (PLRM section 3.2.2).
+	for {
+		b, err := s.Next()
+		if err != nil {
+			return
+		} else if b == 10 || b == 12 { // LF or FF
+			return
+		} else if b == 13 { // CR or CR+LF
+			s.SkipOptionalByte(10)
+			return
+		}
 	}
 }
 
